@@ -269,9 +269,15 @@ fn continuation(run: &mut explore::Run) -> Vec<String> {
                     let types: Vec<u16> = crate::refs::codec::ref_parse(bytes).map(|p| p.tlvs.iter().map(|t| t.ty).collect()).unwrap_or_default();
                     format!("Out({:?},{} bytes,{:04x?})", who, bytes.len(), types)
                 }
+                // which of several requests with the SAME deadline is named is left open (it may even depend on the random
+                // ids): the notification is described by the time left only; C11 checks that the named request is an earliest one
+                OEv::Rto { ns, .. } => format!("Rto {{ ns: {} }}", ns),
                 o => format!("{:?}", o),
             })
             .collect();
+        // the order of the events of one call is not fixed for different transactions either: compared as a multiset
+        let mut evs = evs;
+        evs.sort();
         out.push(format!("{} -> {:?} {:?}", tag, obs.res, evs));
     };
     let mut guard = 0;
